@@ -1,7 +1,7 @@
 (* IPV.C12.RKProofs — facts about the scheme regenerated from Phreeqc::rk_kinetics (Gen_C12_Tableau.v).
    Every lemma here is re-checked against the regenerated file on every run: a changed coefficient,
    time offset or combination makes [field]/[vm_compute] fail. *)
-Require Import QArith List Lia Lra Lqa Field.
+Require Import QArith Qabs List Lia Lra Lqa Field.
 Import ListNotations.
 Require Import IPV.C12.RK IPV.Gen.Gen_C12_Tableau.
 Open Scope Q_scope.
@@ -82,3 +82,75 @@ Proof. split; vm_compute; reflexivity. Qed.
 
 Lemma err_scaled_by_tol : g_err_divided_by_tol = true /\ g_err_limit == 1.
 Proof. split; vm_compute; reflexivity. Qed.
+Ltac unfold_step :=
+  unfold step_m, step_moles, step_est, exit1_moles, exit2_moles, exit3_moles, k6, k5, k4, k3, k2, k1, kappa6, taylor5, tabB, coefs, at6;
+  cbn [nth CK s2 s3 s4 s5 s6 res est x1 x2 x3 t1 t2 t3 t4 t5 t6]; unfold_gen.
+
+Theorem linear_est : forall lam t0 hs h m0,
+  let z := lam * h in
+  step_est CK (fun _ m => lam * m) t0 hs h m0 == - m0 * (z*z*z*z*z) * ((277 # 1228800) + (277 # 1638400) * z).
+Proof. intros. subst z. unfold_step. field. Qed.
+
+Theorem zero_order_exact : forall r t0 hs h m0,
+  step_moles CK (fun _ _ => r) t0 hs h m0 == r * h /\ step_est CK (fun _ _ => r) t0 hs h m0 == 0.
+Proof. intros. unfold_step. split; field. Qed.
+
+(* rate depending on time only, polynomial of degree <= 4 *)
+Definition poly4 (a0 a1 a2 a3 a4 t : Q) : Q := a0 + a1*t + a2*t*t + a3*t*t*t + a4*t*t*t*t.
+Definition prim4 (a0 a1 a2 a3 a4 t : Q) : Q := a0*t + a1*t*t*(1#2) + a2*t*t*t*(1#3) + a3*t*t*t*t*(1#4) + a4*t*t*t*t*t*(1#5).
+
+Theorem quadrature_exact : forall a0 a1 a2 a3 a4 t0 hs h m0,
+  step_moles CK (fun t _ => poly4 a0 a1 a2 a3 a4 t) t0 hs h m0 ==
+  prim4 a0 a1 a2 a3 a4 (t0 + hs + h) - prim4 a0 a1 a2 a3 a4 (t0 + hs).
+Proof. intros. unfold_step. unfold poly4, prim4. field. Qed.
+
+Ltac unfold_pair :=
+  unfold pair_m, p6, p5, p4, p3, p2, p1; cbn [fst snd];
+  cbn [nth CK s2 s3 s4 s5 s6 res est x1 x2 x3 t1 t2 t3 t4 t5 t6]; unfold_gen.
+
+(* y' = -M y, M = [[a b][c d]]: one step = (I - hM + (hM)^2/2 - ... - (hM)^5/120 + (hM)^6/800) y *)
+Definition mat2 := (Q * Q * Q * Q)%type.
+Definition mmul (X Y : mat2) : mat2 :=
+  let '(a,b,c,d) := X in let '(e,f,g,i) := Y in (a*e+b*g, a*f+b*i, c*e+d*g, c*f+d*i).
+Definition madd (X Y : mat2) : mat2 :=
+  let '(a,b,c,d) := X in let '(e,f,g,i) := Y in (a+e, b+f, c+g, d+i).
+Definition mscale (s : Q) (X : mat2) : mat2 := let '(a,b,c,d) := X in (s*a, s*b, s*c, s*d).
+Definition mapply (X : mat2) (v : Q * Q) : Q * Q := let '(a,b,c,d) := X in (a * fst v + b * snd v, c * fst v + d * snd v).
+Definition mI : mat2 := (1,0,0,1).
+Definition stab_poly (S : scheme) (Z : mat2) : mat2 :=
+  let Z2 := mmul Z Z in let Z3 := mmul Z2 Z in let Z4 := mmul Z3 Z in let Z5 := mmul Z4 Z in let Z6 := mmul Z5 Z in
+  madd mI (madd (mscale (-(1)) Z) (madd (mscale (1#2) Z2) (madd (mscale (-(1#6)) Z3) (madd (mscale (1#24) Z4)
+       (madd (mscale (-(1#120)) Z5) (mscale (kappa6 S) Z6)))))).
+
+Theorem coupled_linear_exact : forall a b c d t0 hs h y1 y2,
+  let r := pair_m CK (fun _ u v => a*u + b*v) (fun _ u v => c*u + d*v) t0 hs h y1 y2 in
+  let e := mapply (stab_poly CK (mscale h (a,b,c,d))) (y1, y2) in
+  fst r == fst e /\ snd r == snd e.
+Proof.
+  intros. subst r e. unfold stab_poly, mapply, madd, mscale, mmul, mI, kappa6, tabB, coefs, at6. cbn [fst snd].
+  unfold_pair. split; field. Qed.
+
+Theorem linear_exact : forall lam t0 hs h m0,
+  let z := lam * h in
+  step_m CK (fun _ m => lam * m) t0 hs h m0 == m0 * (taylor5 z + kappa6 CK * (z*z*z*z*z*z)).
+Proof. intros. subst z. unfold_step. field. Qed.
+
+Lemma kappa6_value : kappa6 CK == 1 # 800.
+Proof. vm_compute. reflexivity. Qed.
+
+(* early exits (-runge_kutta 1/2/3 with "equal rates"): the weights sum to one, so when the rate
+   evaluations agree within tol the result is within a fixed multiple of tol of the Euler step k1 *)
+Theorem early_exit_consistent : forall k1 k2 k3 tol,
+  Qabs (k2 - k1) <= tol -> Qabs (k3 - k1) <= tol ->
+  g_exit1 k1 0 0 0 0 0 == k1 /\
+  Qabs (g_exit2 k1 k2 0 0 0 0 - k1) <= (7#10) * tol /\
+  Qabs (g_exit3 k1 k2 k3 0 0 0 - k1) <= (7#2) * tol.
+Proof.
+  intros k1 k2 k3 tol H2 H3.
+  apply Qabs_Qle_condition in H2. apply Qabs_Qle_condition in H3.
+  unfold_gen. split; [ring|]. split; apply Qabs_Qle_condition; split; lra.
+Qed.
+
+Lemma exit_weights_sum_to_one :
+  qsum (coefs g_exit1) == 1 /\ qsum (coefs g_exit2) == 1 /\ qsum (coefs g_exit3) == 1.
+Proof. repeat split; vm_compute; reflexivity. Qed.
